@@ -37,6 +37,8 @@ def sample_cases(draw, tier="quick"):
         c = {"kind": kind, "raw": raw, "shape": [a, b]}
     c["Nb"] = draw(st.integers(0, N + 1))
     c["Nt"] = draw(st.integers(1, N + 3))
+    # memory layout of the sample array handed to Samples (Fortran order, non-contiguous view, negative strides, read-only)
+    c["layout"] = draw(st.sampled_from(gen.LAYOUTS))
     c["percent"] = draw(st.sampled_from([95, 50, 99, 68.3, 0, 100, 10]))
     c["ops"] = draw(st.lists(st.one_of(
         st.tuples(st.just("burnthin"), st.integers(0, 6), st.integers(1, 4)),
@@ -54,13 +56,13 @@ def build(c):
         d = raw.shape[0]
         G = {"none": None, "cont1d": cuqi.geometry.Continuous1D(d), "discrete": cuqi.geometry.Discrete(d),
              "mapped_exp": cuqi.geometry.MappedGeometry(cuqi.geometry.Continuous1D(d), map=lambda v: np.exp(0.3 * v), imap=lambda w: np.log(w) / 0.3)}[c["geom"]]
-        arr = raw.astype(int) if c.get("int_raw") else raw.copy()
+        arr = raw.astype(int) if c.get("int_raw") else gen.relayout(raw, c.get("layout", "plain"))
         return raw, cuqi.samples.Samples(arr, geometry=G), G
     if c["kind"] == "image_par":
         G = cuqi.geometry.Image2D(tuple(c["shape"]), order=c["order"])
-        return raw, cuqi.samples.Samples(raw.copy(), geometry=G), G
+        return raw, cuqi.samples.Samples(gen.relayout(raw, c.get("layout", "plain")), geometry=G), G
     G = cuqi.geometry.Image2D(tuple(c["shape"]))
-    return raw, cuqi.samples.Samples(raw.copy(), geometry=G, is_par=False, is_vec=False), G
+    return raw, cuqi.samples.Samples(gen.relayout(raw, c.get("layout", "plain")), geometry=G, is_par=False, is_vec=False), G
 
 
 def tags_of(c):
